@@ -19,6 +19,11 @@ CHECKS = {
    ref="6 (C09)"),
 }
 
+CHECKS["C06"] = dict(engine="framing_in", technique="TLA+ specification spec/Framing.tla enumerates streams x cuts x progress-making pauses (TLC); every case is read by the real client through a scripted connection; TLC judges the recorded traces with spec/Monitor.tla",
+   text="Framing.tla defines, for a read buffer of B bytes, the streams, the ways of cutting them into reads and which deadline expiries are progress-making (at least one byte between the arming of the deadline and the expiry); TLC enumerates all cases of the bounded instance (cuts next to every field and buffer boundary, all one-byte reads, every subset of legal pauses). The Go worker lets the real client read each fragmentation (the harness connection hands out exactly the scripted byte counts and expiries, CONNACK coalesced with what follows), with BigMessages read or skipped. TLC judges each trace: the sequence of returned messages (length and FNV-1a of the content, BigMessage size) equals the PUBLISH packets sent, in order, and the connection was not reset. The random schedules of the client engine add messages beyond the buffer under faults.",
+   note="B = 16 (the smallest buffer bufio allows); 11 (quick) / 14 (thorough) streams of up to 3 packets; <= 2 / 3 cuts; topics of one byte. Pauses inside CONNACK or inside a packet header are not judged (the client documents one deadline for the 4-byte CONNACK).",
+   ref="6 (C06)")
+
 CLIENT_TEXT = ("spec/MqttClient.tla models the client at the grain of its blocking points (one move per segment between two gates; semaphores as "
   "variables; reader, persisted publishers, Close, the abort and termCallbacks goroutines, a conforming broker, fault budgets). TLC checks the design "
   "invariants on bounded instances and exports the stimulus of its transitions; the Go harness replays each behaviour against the real code parked at the "
